@@ -462,7 +462,9 @@ class InterpCore(object):
         noneb = isinstance(b, Const) and b.v is None
         if nonea or noneb:
             other = b if nonea else a
-            if isinstance(other, (Num, ListV, DictV, InstV, FuncV, StrV, BufV, SeqV, SortedV)):
+            if isinstance(other, Const):
+                return other.v is None
+            if not isinstance(other, (Opaque, Phi, LookupV, Unknown)):
                 return False
             return Cond("isnone", other)
         if isinstance(a, Const) and isinstance(b, Num) or isinstance(a, Num) and isinstance(b, Const):
@@ -495,6 +497,10 @@ class InterpCore(object):
             return Cond("in", item, container)
         if isinstance(container, Const) and isinstance(container.v, str) and isinstance(item, Const):
             return item.v in container.v
+        if type(container).__name__ == "SetAccV" and not container.adds:
+            return self.contains(ListV(list(container.concrete), "set"), item, node)
+        if type(container).__name__ == "PyObjV" and hasattr(container.obj, "contains"):
+            return container.obj.contains(self, item)
         if isinstance(container, (LoopDictV, SetV, Opaque, SeqV, InstV, Phi)):
             return Cond("in", item, container)
         self.err(node, "membership test on %r" % (container,))
